@@ -139,6 +139,8 @@ static void mpi_prog()
     g_pending_answers = 0;
     g_slow_calls = MODESET ? 2 : 0;
     g_in_test = 0;
+    static int g_noneager;
+    g_noneager = MODESET ? 1 : pmc_choose(2, 0);    // 1: the eager test right after the MPI call finds the request pending (no deviation)
     int mode = MODESET ? modes_pool_subset[pmc_choose(8, 0)] : modes_all[pmc_choose(32, 0)];
     s.nreq = NREQ;
     static int buf[4];
@@ -157,7 +159,7 @@ static void mpi_prog()
                 rt::watch_self(i ? "req1" : "req0");
                 // MODESET specs: the first poll (the eager test right after the call) finds the request pending
                 // at no cost, so that it is queued for the polling thread
-                auto snd = mpi::transform_mpi(ex::just(&buf[i], 100 + i), [](int* b, int v, MPI_Request* r) { *r = mock_start(b, v); if (MODESET) ((MockReq*) *r)->pending_polls = 1; return MPI_SUCCESS; });
+                auto snd = mpi::transform_mpi(ex::just(&buf[i], 100 + i), [](int* b, int v, MPI_Request* r) { *r = mock_start(b, v); if (g_noneager) ((MockReq*) *r)->pending_polls = 1; return MPI_SUCCESS; });
                 rt::tt::sync_wait(std::move(snd) | ex::then([i]() {
                     ++g->signalled[i];
                     // find this request: requests are numbered in start order, buffers identify them
